@@ -13,3 +13,5 @@ func ZvNewSample(ts time.Time, tags string, id uint64, fields [10]int) *Sample {
 }
 
 func ZvAppendPhout(s *Sample, id bool) []byte { return appendPhout(s, nil, id) }
+
+func ZvErrno(s *Sample) int { return s.get(keyErrno) }
